@@ -3,7 +3,8 @@ import collections
 from lib import *
 
 THEOREMS = ["Lex.decimal_roundtrip", "Lex.hex_roundtrip", "Lex.bin_roundtrip", "Lex.decimal_too_big",
-            "Lex.valueOf_toDigits", "Lit.lint_iff_out_of_range", "Lit.materialise_exact", "Lit.minus_fold"]
+            "Lex.valueOf_toDigits", "Lit.lint_iff_out_of_range", "Lit.lint_iff_out_of_range_negated_bit",
+            "Lit.materialise_exact", "Lit.minus_fold", "Lit.minus_fold_i128_min"]
 
 TYPES = ["i8", "i16", "i32", "i64", "i128", "u8", "u16", "u32", "u64", "u128", "usize"]
 WIDTH = {"i8": 8, "i16": 16, "i32": 32, "i64": 64, "i128": 128, "u8": 8, "u16": 16, "u32": 32, "u64": 64, "u128": 128,
